@@ -1349,19 +1349,41 @@ def template_metadata(inputfile, verbose=False):
             metadata['orig_'+r] = os.environ[r.upper()]
         except KeyError:
             metadata['orig_'+r] = None
-        os.environ[r.upper()] = metadata[r]
-    if metadata['method'].lower() == 'hmf':
-        required_hmf_metadata = {'nonnegative': lambda x: bool(int(x)),
-                                 'epsilon': float}
-        for key in required_hmf_metadata:
-            try:
-                metadata[key] = required_hmf_metadata[key](par[key])
-                log.debug('%s = %s' % (key, par[key]))
-            except KeyError:
-                raise KeyError('The {0} keyword was not found in {1}!'.format(key, inputfile))
-            except ValueError:
-                raise ValueError('The {0} keyword has invalid value, {1}!'.format(key, par[key]))
+    try:
+        for r in ('run2d', 'run1d'):
+            os.environ[r.upper()] = metadata[r]
+        if metadata['method'].lower() == 'hmf':
+            required_hmf_metadata = {'nonnegative': lambda x: bool(int(x)),
+                                     'epsilon': float}
+            for key in required_hmf_metadata:
+                try:
+                    metadata[key] = required_hmf_metadata[key](par[key])
+                    log.debug('%s = %s' % (key, par[key]))
+                except KeyError:
+                    raise KeyError('The {0} keyword was not found in {1}!'.format(key, inputfile))
+                except ValueError:
+                    raise ValueError('The {0} keyword has invalid value, {1}!'.format(key, par[key]))
+    except BaseException:
+        _restore_run_environment(metadata)
+        raise
     return (slist, metadata)
+
+
+def _restore_run_environment(metadata):
+    """Put :envvar:`RUN2D` and :envvar:`RUN1D` back to the values recorded
+    by :func:`template_metadata`.
+
+    Parameters
+    ----------
+    metadata : :class:`dict`
+        Metadata returned by :func:`template_metadata`.
+    """
+    for r in ('run2d', 'run1d'):
+        if metadata['orig_'+r] is None:
+            os.environ.pop(r.upper(), None)
+        else:
+            os.environ[r.upper()] = metadata['orig_'+r]
+    return
 
 
 def template_input(inputfile, dumpfile, flux=False, verbose=False):
@@ -1382,12 +1404,6 @@ def template_input(inputfile, dumpfile, flux=False, verbose=False):
     verbose : :class:`bool`, optional
         If ``True``, print lots of extra information.
     """
-    import pickle
-    from astropy.constants import c as cspeed
-    from .. import __version__ as pydl_version
-    from ..goddard.astro import get_juldate
-    from ..pydlutils.image import djs_maskinterp
-    from ..pydlutils.math import djs_median
     #
     # Logging
     #
@@ -1397,6 +1413,27 @@ def template_input(inputfile, dumpfile, flux=False, verbose=False):
     # Read metadata.
     #
     slist, metadata = template_metadata(inputfile)
+    #
+    # RUN2D and RUN1D are now set from the metadata; make sure they are
+    # restored however the computation ends.
+    #
+    try:
+        _template_input(slist, metadata, inputfile, dumpfile, flux, verbose)
+    finally:
+        _restore_run_environment(metadata)
+    return
+
+
+def _template_input(slist, metadata, inputfile, dumpfile, flux, verbose):
+    """Does the work of :func:`template_input` once the metadata
+    have been read.
+    """
+    import pickle
+    from astropy.constants import c as cspeed
+    from .. import __version__ as pydl_version
+    from ..goddard.astro import get_juldate
+    from ..pydlutils.image import djs_maskinterp
+    from ..pydlutils.math import djs_median
     #
     # Name the output files.
     #
@@ -1664,14 +1701,6 @@ def template_input(inputfile, dumpfile, flux=False, verbose=False):
     hdulist.writeto(outfile+'.fits', overwrite=True)
     if metadata['object'].lower() != 'star':
         plot_eig(outfile+'.fits')
-    #
-    # Clean up
-    #
-    for r in ('run2d', 'run1d'):
-        if metadata['orig_'+r] is None:
-            del os.environ[r.upper()]
-        else:
-            os.environ[r.upper()] = metadata['orig_'+r]
     return
 
 
